@@ -30,6 +30,7 @@ def C(*a, **k):
     return c
 
 
+MERGE_PROPS = []      # ["C07", "C08"] once the proof is complete
 CUR = ("i_old", "i_com", "i_new")
 BKT = {"i_old": "b_old", "i_com": "b_com", "i_new": "b_new"}
 
@@ -71,12 +72,12 @@ def below_frontier(k):
 def invariant(mapping, extra=None):
     ch, conflict, m_in, m_val = spec_macros(mapping)
     inv = {
-        "cursors": " and ".join(cur(i) for i in CUR),
+        "cursor_old": cur("i_old"), "cursor_com": cur("i_com"), "cursor_new": cur("i_new"),
         "distinct": ("i_old is not i_com and i_old is not i_new and i_com is not i_new and "
                      "i_old._iter is not i_com._iter and i_old._iter is not i_new._iter and i_com._iter is not i_new._iter and " +
                      " and ".join("fresh(%s) and fresh(%s._iter) and fresh(%s) and fresh(%s._keys)" % (i, i, BKT[i], BKT[i]) for i in CUR) +
                      " and fresh(result) and fresh(result._keys) and " +
-                     " and ".join("result._keys is not %s._keys" % BKT[i] for i in CUR) +
+                     " and ".join("result._keys is not %s._keys and result._keys is not it_vals(%s._iter)" % (BKT[i], i) for i in CUR) +
                      " and b_old._keys is not b_com._keys and b_old._keys is not b_new._keys and b_com._keys is not b_new._keys"),
         "sources": " and ".join("it_seq(%s._iter) is %s._keys and sorted_strict(%s._keys)" % (i, BKT[i], BKT[i]) for i in CUR),
         "sorted": "sorted_strict(result._keys)",
@@ -87,9 +88,15 @@ def invariant(mapping, extra=None):
     for i in CUR:
         inv["below_" + i] = "implies(%s.active, forall(0, len(result._keys), lambda r: result._keys[r] < %s.key))" % (i, i)
     for a in CUR:
+        inv["sub_" + a] = "subset(%s, %s)" % (seen(a), allkeys(a))
+    for a in CUR:
         for b in CUR:
-            if a != b:
+            if True:
                 inv["front_%s_%s" % (a, b)] = "implies(%s.active, all_below(%s, %s.key))" % (b, seen(a), b)
+    # L2 instantiated at each cursor: what it has not consumed yet is not below its current key
+    for i in CUR:
+        inv["rest_" + i] = ("implies(%s.active, forall_key(lambda k: implies(mem(%s, k) and not mem(%s, k), %s.key <= k)))"
+                            % (i, allkeys(i), seen(i), i))
     # below the frontier: the result is the merge, and no key is in conflict
     inv["content"] = ("forall_key(lambda k: implies(" + below_frontier("k") + ", mem(elems(result._keys), k) == " + m_in("k") + "))")
     inv["no_conflict_so_far"] = ("forall_key(lambda k: implies(" + below_frontier("k") + ", not " + conflict("k") + "))")
@@ -115,8 +122,18 @@ def loop(mapping, extra=None):
     for i in CUR:
         mods += ["%s.key" % i, "%s.value" % i, "%s.position" % i, "%s.active" % i, "%s._iter.$it_pos" % i]
     mods += ["list:result._keys"] + (["list:result._values", "result._p_changed"] if mapping else [])
-    return {"inv": invariant(mapping, extra), "modifies": mods,
+    return {"inv": invariant(mapping, extra), "modifies": mods, "chain": True,
             "dec": " + ".join("((len(it_seq(%s._iter)) - %s.position + 1) if %s.active else 0)" % (i, i, i) for i in CUR)}
+
+
+# facts the cursor-shape clauses depend on (hypothesis slicing, pyvc/engine.py `sliced`)
+CURSOR_FACTS = ["inv:cursor_*", "inv:distinct", "inv:sources", "inv:value_sources", "inv:result_kind", "inv:paired",
+                "post:_SetIteration.*", "post:*__setstate__:*", "post:*clear:*", "req:*"]
+
+
+# facts the frontier clauses depend on
+FRONT_FACTS = CURSOR_FACTS + ["inv:phase", "inv:front_*", "inv:sub_*", "inv:rest_*", "new:cursor_*", "new:sources", "new:distinct",
+                              "new:front_*", "new:sub_*", "lemma:*"]
 
 
 def contract(cls):
@@ -183,7 +200,10 @@ def contract(cls):
              requires=req, returns=state, ensures=ens,
              raises={"BTreesConflictError": {}},
              modifies=[],
-             ghost={"allocates": True, "no_compare": True,
+             ghost={"allocates": True, "no_compare": True, "split_cases": 1, "single_exit": True,
+                    "uses": {"*:cursor_*": CURSOR_FACTS, "call:_SetIteration.advance:requires:*": CURSOR_FACTS,
+                             "*:distinct": CURSOR_FACTS, "*:sources": CURSOR_FACTS, "*:value_sources": CURSOR_FACTS,
+                             "*:preserve:front_*": FRONT_FACTS, "*:preserve:sub_*": FRONT_FACTS, "*:preserve:rest_*": FRONT_FACTS},
                     "witness": {"R": "result", "b_old": "b_old", "b_com": "b_com", "b_new": "b_new"},
                     "at_raise": {"BTreesConflictError": just},
                     "loop_lemmas": ["pe_remaining(b_old._keys)", "pe_remaining(b_com._keys)", "pe_remaining(b_new._keys)",
@@ -196,7 +216,7 @@ def contract(cls):
                     loop(mapping, {"phase": "not (i_com.active and i_new.active) and not (i_old.active and i_com.active)"}),   # old & new
                     loop(mapping, {"phase": "not i_old.active and not (i_com.active and i_new.active)"}),   # com only
                     loop(mapping, {"phase": "not i_old.active and not i_com.active"})],      # new only
-             props=["C07", "C08"])
+             props=MERGE_PROPS)
 
 
 contract("Set")
